@@ -63,6 +63,18 @@ def check_interface(mdg, intf, frac_len, where, tr):
     for name, M in (("primary_to_mortar_int", P_int), ("primary_to_mortar_avg", P_avg), ("secondary_to_mortar_int", S_int), ("secondary_to_mortar_avg", S_avg)):
         if M.nnz and M.data.min() < -1e-14:
             raise Violation("entries_nonnegative", f"after {where}: {name} has negative entry {M.data.min()}")
+    # the vector-valued variants (nd > 1) are the scalar maps applied component by component
+    for nd in (2, 3):
+        for name, M1 in (("primary_to_mortar_int", P_int), ("primary_to_mortar_avg", P_avg), ("secondary_to_mortar_int", S_int), ("secondary_to_mortar_avg", S_avg)):
+            Mn = sps.csr_matrix(getattr(intf, name)(nd))
+            ref = sps.kron(M1, sps.identity(nd), format="csr")
+            if Mn.shape != ref.shape or abs(Mn - ref).sum() > 1e-12:
+                raise Violation("integrated_preserves_totals" if name.endswith("int") else "averaged_maps_constants", f"after {where}: {name}(nd={nd}) is not the scalar map applied per component (shape {Mn.shape}, expected {ref.shape})", "vector_variant_differs")
+        for name in ("mortar_to_primary_int", "mortar_to_primary_avg", "mortar_to_secondary_int", "mortar_to_secondary_avg"):
+            Mn = sps.csr_matrix(getattr(intf, name)(nd))
+            ref = sps.kron(sps.csr_matrix(getattr(intf, name)()), sps.identity(nd), format="csr")
+            if Mn.shape != ref.shape or abs(Mn - ref).sum() > 1e-12:
+                raise Violation("transposes", f"after {where}: {name}(nd={nd}) is not the scalar map applied per component", "vector_variant_differs")
     # transposes
     for a, b, nm_ in (
         (intf.mortar_to_primary_int(), P_avg.T, "mortar_to_primary_int == primary_to_mortar_avg.T"),
